@@ -51,6 +51,9 @@ func (q *Query) smtOpt(withModel, ground bool) string {
 		switch kind {
 		case 0:
 			allocAx = append(allocAx, fmt.Sprintf("(forall ((o Int)) (! (=> (<= o alloc$top@entry) (and (<= 0 (select %s o)) (<= (select %s o) alloc$top@entry))) :pattern ((select %s o))))", name, name, name))
+		case 2:
+			ks := fx.mapKeySort[key]
+			allocAx = append(allocAx, fmt.Sprintf("(forall ((o Int) (k %s)) (! (=> (<= o alloc$top@entry) (and (<= 0 (select (select %s o) k)) (<= (select (select %s o) k) alloc$top@entry))) :pattern ((select (select %s o) k))))", ks, name, name, name))
 		case 1:
 			ls := fx.mode.lenSort()
 			allocAx = append(allocAx, fmt.Sprintf("(forall ((o Int) (i %s)) (! (=> (<= o alloc$top@entry) (and (<= 0 (select (select %s o) i)) (<= (select (select %s o) i) alloc$top@entry))) :pattern ((select (select %s o) i))))", ls, name, name, name))
@@ -281,6 +284,23 @@ func (s *Solver) solveOne(q *Query) {
 	// stage 0: ground query (quantified hypotheses dropped) – unsat here is unsat of the full query
 	var r solveResult
 	gfile := filepath.Join(s.dir, h+".g.smt2")
+	if q.Canary {
+		// a canary is refuted (vacuity!) already when the quantifier-free part of the hypotheses is contradictory
+		_ = os.WriteFile(gfile, []byte(q.smtOpt(false, true)), 0o644)
+		gr := runSolver(context.Background(), solvers[0], gfile, 3, s.seed)
+		if !s.keep {
+			os.Remove(gfile)
+		}
+		if gr.status == "unsat" {
+			q.Status, q.Solver, q.Seconds, q.Output = "unsat", gr.solver + "/ground", gr.seconds, ""
+			return
+		}
+		if q.AnyOf != "" && gr.status == "sat" {
+			// reachable as far as the ground part goes: good enough for the reachability group
+			q.Status, q.Solver, q.Seconds = "sat", gr.solver + "/ground", gr.seconds
+			return
+		}
+	}
 	if !q.Canary {
 		_ = os.WriteFile(gfile, []byte(q.smtOpt(true, true)), 0o644)
 		gr := runSolver(context.Background(), solvers[0], gfile, 2, s.seed)
@@ -343,7 +363,7 @@ func (s *Solver) solveOne(q *Query) {
 	// stage 1: the fast solver alone, short limit
 	r = runSolver(context.Background(), solvers[0], file, s.quickT, s.seed)
 	s.note(r)
-	if r.status != "unsat" && r.status != "sat" {
+	if r.status != "unsat" && r.status != "sat" && !q.Canary {
 		// stage 2: race all three with the long limit
 		ctx, cancel := context.WithCancel(context.Background())
 		ch := make(chan solveResult, len(solvers))
